@@ -148,6 +148,18 @@ except GraphQLSyntaxError as e:
 }
 
 
+def bounded_checks(tier, seed):
+    """Thorough tier: the bounded stand-in search of this property also runs when nothing is
+    undecided (deeper exploration, labelled bounded; a failing input is replayed by construction)."""
+    if tier != "thorough":
+        return []
+    from pyvc.checker import run_standin
+    res = run_standin(STANDIN, seed)
+    return [{"id": "C10/bounded/standin-search", "function": STANDIN,
+             "tool": "native differential search", "bound": STANDIN_BUDGET,
+             "failed": bool(res), "input": res, "output": ""}]
+
+
 def native_checks(tier, seed):
     """Replays of the witnesses of repaired defects (KNOWN_FINDINGS.json 'fixed'): a fixed entry
     suppresses nothing, so the violation is reported again if it ever returns."""
